@@ -50,6 +50,7 @@ Definition ESynthExists := 18.
 Definition ESynthNotFound := 19.
 Definition ENotAllowed := 21.
 Definition ESuperfluidExists := 22.
+Definition ENotGamm := 23.
 Definition EOther := 97.
 Definition EPanic := 98.
 
@@ -57,7 +58,8 @@ Record config := mkCfg {
   c_unb : Z;          (* staking UnbondingTime (ns) *)
   c_rf : Z;           (* superfluid MinimumRiskFactor (Dec raw) *)
   c_sf : list Z;      (* denoms registered as superfluid assets *)
-  c_force : list Z }. (* owners on lockup's ForceUnlockAllowedAddresses list *)
+  c_force : list Z;   (* owners on lockup's ForceUnlockAllowedAddresses list *)
+  c_gamm : list Z }.  (* denoms that are gamm pool shares (the others are concentrated-liquidity shares) *)
 
 Record lock := mkLock {
   l_owner : Z; l_denom : Z; l_amt : Z; l_dur : Z;
@@ -540,6 +542,56 @@ Definition force_unlock (cfg : config) (st : state) (sender id : Z) : result sta
     end
   end.
 
+(* undelegateCommon (the part of SuperfluidUndelegate before the unstaking marker is created) *)
+Definition undelegate_common (cfg : config) (st : state) (sender id : Z) : result state :=
+  match s_locks st id with
+  | None => Err ELockNotFound
+  | Some l =>
+    if negb (l_owner l =? sender) then Err ENotOwner else
+    match s_conn st id with
+    | None => Err ENotSuperfluidUsed
+    | Some (d, v) =>
+      let st1 := set_conn st (upd1 (s_conn st) id None) in
+      do st2 <- delete_synth st1 id Staking (l_denom l) v;
+      do amount <- sf_osmo_tokens cfg st2 d (l_amt l);
+      force_undelegate_and_burn st2 d v amount
+    end
+  end.
+
+(* x/staking Delegate by an ordinary account (here: the lock owner staking the proceeds of a conversion) *)
+Definition external_delegate (st : state) (v amt : Z) : result state :=
+  match s_vals st v with
+  | None => Err ENoValidator
+  | Some val =>
+    if amt <? 0 then Err EOther else                                  (* a dust lock may convert to 0 OSMO: staking 0 is accepted *)
+    if (v_tokens val =? 0) && (0 <? v_shares val) then Err EOther else
+    let issued := if v_shares val =? 0 then d_from_int amt
+                  else d_quo_int (d_mul_int (v_shares val) amt) (v_tokens val) in
+    let st1 := set_vals st (upd1 (s_vals st) v (Some (mkVal (v_tokens val + amt) (v_shares val + issued)))) in
+    Ok (set_bank st1 (s_supply st1) (s_offset st1) (s_bonded st1 + amt))
+  end.
+
+(* MsgUnbondConvertAndStake of a lock (superfluid bonded, superfluid unbonding or plain): undelegate if bonded, force the lock
+   out of lockup (ForceUnlock deletes its synthetic lock whatever its end time), exit the pool and swap to OSMO (environment:
+   [x] = the OSMO obtained, [env_ok] = those steps succeeded), and stake x with validator v as the owner's own delegation *)
+Definition convert (cfg : config) (st : state) (sender id v x : Z) (env_ok : bool) : result state :=
+  do found <- synth_by_lock st id;
+  do st1 <- (match found with
+             | Some y => match y_kind y with Staking => undelegate_common cfg st sender id | Unstaking => Ok st end
+             | None => Ok st
+             end);
+  match s_locks st1 id with
+  | None => Err ELockNotFound
+  | Some l =>
+    if negb (l_owner l =? sender) then Err ENotOwner else
+    if negb (existsb (Z.eqb (l_denom l)) (c_gamm cfg)) then Err ENotGamm else
+    do found1 <- synth_by_lock st1 id;
+    do st2 <- (match found1 with Some y => delete_synth st1 id (y_kind y) (y_denom y) (y_val y) | None => Ok st1 end);
+    do st3 <- (if l_end l =? 0 then do r <- begin_unlock st2 id None; Ok (fst r) else Ok st2);
+    if negb env_ok then Err EOther else
+    external_delegate (del_lock st3 id) v x
+  end.
+
 (* ---- slashing (environment transition; NOT part of [op]: the theorems of Properties/C11.v are about histories without
    slashing, the correspondence run also covers this function) ----
    x/staking Slash(validator v, infraction height = now, power = current consensus power, slashFactor) with the superfluid
@@ -601,6 +653,7 @@ Inductive op :=
 | OBeginUnlockPartial (sender id amt : Z)         (* lockup MsgBeginUnlocking with coins: part of a lock *)
 | OBeginUnlockAll (owner : Z)                     (* lockup MsgBeginUnlockingAll *)
 | OForceUnlock (sender id : Z)                    (* lockup MsgForceUnlock (whole lock) *)
+| OConvert (sender id v x : Z) (env_ok : bool)    (* MsgUnbondConvertAndStake of a lock; reports the amount staked *)
 | OWithdraw (id : Z)                              (* lockup UnlockMaturedLock *)
 | OAdvance (dt : Z)                               (* next block, dt later *)
 | OCleanup                                        (* lockup EndBlocker: DeleteAllMaturedSyntheticLocks; WithdrawMaturedLocks *)
@@ -638,6 +691,7 @@ Definition step (cfg : config) (st : state) (o : op) : result (state * Z) :=
       end
   | OBeginUnlockAll owner => do st' <- begin_unlock_all st owner (ids_upto (s_last st)); Ok (st', 0)
   | OForceUnlock sender id => do st' <- force_unlock cfg st sender id; Ok (st', 0)
+  | OConvert sender id v x env_ok => do st' <- convert cfg st sender id v x env_ok; Ok (st', x)
   | OWithdraw id => do st' <- unlock_matured_lock st id; Ok (st', 0)
   | OAdvance dt => if dt <? 0 then Err EPanic else Ok (set_now st (s_now st + dt), 0)
   | OCleanup => do st1 <- delete_matured_synths st (ids_upto (s_last st)); Ok (withdraw_matured st1, 0)
